@@ -386,6 +386,14 @@ def gen(rng, tier):
     prev = {"h1": b"GET / HTTP/1.1\r\nHost: a\r\n\r\n", "h2": MAGIC, "ws": b"GET / HTTP/1.1\r\n\r\n"}
     for i in range(n):
         r = rng.random()
+        if i % 60 == 59:
+            # more pipelined requests than the connection may carry (the limit is the client's to hit: 1001 GETs do it with the default):
+            # whatever is answered, the handler has to come to an end
+            lim = rng.choice([1, 2, 3, 5])
+            k = lim + rng.choice([1, 2, 4])
+            data = b"".join(b"GET /p%d HTTP/1.1\r\nHost: host1.example\r\n\r\n" % j for j in range(k))
+            yield _base(rng, "h1.pipeline-past-limit", data, extra={"config": {"keep_alive_timeout": 5, "keep_alive_max_requests": lim}})
+            continue
         if r < 0.06:
             data = bytes(rng.randrange(256) for _ in range(rng.choice([1, 5, 40, 400, 3000])))
             yield _base(rng, "random", data)
@@ -707,6 +715,14 @@ def check(case, obs, tally):
             out.append({"clause": "crash", "sig": "C04.log-format/%s" % short.split(".")[0], "detail": text[:500]})
     if obs.handler == "exception":
         return out
+    if fam in ("h1.mutate", "random", "h1.body-framing", "h1.pipeline-past-limit") and case["client"][-1][0] == "eof":
+        # "... the connection handler terminates or keeps serving": the client has said all it had to say and ended its side, the
+        # applications of these families answer at once - there is nothing left to serve
+        tally.clause("terminates")
+        if obs.handler == "pending":
+            out.append({"clause": "crash", "sig": "C04.handler-never-terminates/%s" % fam.split(".")[0],
+                        "detail": "the client's input was answered (%d bytes) and the client ended its side, but the connection handler is still there at the end of "
+                                  "the history (closed_at %r, %d applications still running)" % (len(obs.outbytes), obs.closed_at, len(obs.open_apps()) if hasattr(obs, "open_apps") else -1)})
     if fam in ("h1.mutate", "random", "ws.mutate", "ws.data-after-close", "ws.hdr", "h1.body-framing", "ws.rejected-then-data", "h2c.upgrade"):
         # the applications of these families never fail by themselves: a 5xx status is the server owning up to an internal error
         import re as _re5
